@@ -351,15 +351,29 @@ def check_find(run, F):
 
 
 def check_folds(run, F):
-    want = {
-        'vfold': 'self.into_iter().fold(init, |a0, a1| if VALID(a1) { f(a0, a1) } else { a0 })',
-        'vfold2': 'self.into_iter().zip(other).fold(init, |a0, a1, a2| if VALID(a1) && VALID(a2) '
-                  '{ f(a0, a1, a2) } else { a0 })',
-    }
-    for name, w in want.items():
+    # the callback runs exactly on the rows where every element is valid; every other row returns
+    # the accumulator unchanged (whether the test is written positively, negated or as a guard)
+    want = {'vfold': ('self.into_iter()', ['a1']), 'vfold2': ('self.into_iter().zip(other)', ['a1', 'a2'])}
+    for name, (recv_w, els) in want.items():
         fn = F.one('IterBasic::' + name)
-        leaf = N.one_leaf(N.tbl(fn))
-        run.ob('NULL.fold', fn, name, leaf == w, fn.loc(), 'body = %s' % leaf)
+        env0 = N.self_env(fn)
+        folds = [x for x in walk(fn.hir) if x.get('k') == 'MethodCall' and x.get('method') == 'fold' and
+                 len(x['ch']) == 3 and peel(x['ch'][2]).get('k') == 'Closure']
+        leaf = N.one_leaf(N.tbl(fn)) or ''
+        ok = len(folds) == 1 and leaf.startswith(recv_w + '.fold(init, ')
+        det = 'body = %s' % leaf
+        if ok:
+            en = dtree.env_at(fn.hir, folds[0], env0)
+            ok = dtree.canon(folds[0]['ch'][0], dict(en)) == recv_w and dtree.canon(folds[0]['ch'][1], dict(en)) == 'init'
+            t = dtree.closure_table(fn.hir, peel(folds[0]['ch'][2]), env0)
+            rows = [(frozenset(cs), l[7:] if l.startswith('return ') else l, tuple(ef)) for cs, l, ef in t]
+            call = 'f(a0, %s)' % ', '.join(els)
+            hit = [r for r in rows if r[1] == call]
+            rest = [r for r in rows if r[1] != call]
+            ok = ok and len(hit) == 1 and hit[0][0] == frozenset('VALID(%s)' % e for e in els) and not hit[0][2] and \
+                bool(rest) and all(l == 'a0' and not ef for cs, l, ef in rest)
+            det = 'closure table %s' % dtree.show(t)
+        run.ob('NULL.fold', fn, name, ok, fn.loc(), det)
     for name in ('vfold_n', 'vapply', 'vapply_n'):
         fn = F.one('IterBasic::' + name)
         cl = [x for x in walk(fn.hir) if x.get('k') in ('Closure', 'For')]
